@@ -5,7 +5,7 @@
     endpoint.go.  NOT modelled: gorilla/mux beyond exact first-match on the path (path cleaning, templates with braces),
     the XML of the document (C18), the cryptographic use of the certificate (C04). *)
 From Saml Require Import Xml.SchemaTypes Xml.Schema Gen.Schema Xml.SamlSpec.
-From Saml Require Import Base.Bytes Idp.FactTypes Gen.Facts Gen.Pure Idp.Sso Idp.Router Proofs.SsoProofs Proofs.SsoAccept.
+From Saml Require Import Base.Bytes Idp.FactTypes Gen.Facts Gen.Pure Idp.Sso Idp.Router Proofs.SsoProofs Proofs.SsoAccept Proofs.SsoLiveness.
 From Coq Require Import List. Import ListNotations.
 
 (** the model's routes / advertised locations / entity ID are what the current source says *)
@@ -66,6 +66,32 @@ Proof. repeat constructor; cbn; intuition discriminate. Qed.
 Theorem C11_schema : forallb (conforms xml_schema) saml_spec = true.
 Proof. exact saml_spec_conforms. Qed.
 
+(** ... and conversely ("exactly when"): when the flag is not an xs:boolean true and the service provider's own metadata does
+    not ask for signed requests either, a request that bears no signature at all (no Signature / SigAlg parameter, no
+    enveloped signature) and meets every other condition IS accepted -- unsigned requests are refused only if one of the
+    two flags says so *)
+Theorem C11_unsigned_accepted_otherwise : forall e_form decode lookup verify_redirect verify_post instant_of now create want_signed sso_locs entity_id f a i s id,
+  xs_true want_signed = false -> xs_true (sp_authn_signed s) = false ->
+  e_form = Some f -> is_empty (f_req f) = false -> f_sig f = [] -> f_sigalg f = [] -> a_signature a = None ->
+  decode (f_enc f) (f_req f) = Some a -> a_issuer a = Some i -> lookup i = Some s ->
+  is_empty (fst (GetAcsUrlAndBindingForResponse (sp_acs s) (a_binding a))) = false ->
+  binding_supported (snd (GetAcsUrlAndBindingForResponse (sp_acs s) (a_binding a))) = true ->
+  required_content instant_of now sso_locs a s = true ->
+  create {| c_acs := fst (GetAcsUrlAndBindingForResponse (sp_acs s) (a_binding a)); c_binding := snd (GetAcsUrlAndBindingForResponse (sp_acs s) (a_binding a));
+            c_relay := f_relay f; c_app := sp_id s; c_reqid := a_id a |} = Some id ->
+  exists st, sso_handler e_form decode lookup verify_redirect verify_post instant_of now create want_signed sso_locs entity_id true sso_steps = Done st [RLogin id].
+Proof.
+  intros e_form decode lookup verify_redirect verify_post instant_of now create want_signed sso_locs entity_id f a i s id
+         Hw Hsp Hf Hreq Hsig Halg Hnos Hd Hi Hl Hacs Hbs Hrc Hcr.
+  assert (NR : signing_required want_signed s = false) by (unfold signing_required; now rewrite Hw, Hsp).
+  destruct (sso_accepts e_form decode lookup verify_redirect verify_post instant_of now create want_signed sso_locs entity_id f a i s id Hf Hreq) as (st & E & _); auto.
+  - left. now rewrite Halg.
+  - unfold cert_check_necessary. rewrite Hnos. discriminate.
+  - unfold redirect_necessary. rewrite NR, Hsig. cbn. discriminate.
+  - unfold post_necessary, post_provided. rewrite NR, Hnos. cbn. discriminate.
+  - exists st. exact E.
+Qed.
+
 Print Assumptions C11_from_source.
 Print Assumptions C11_entity_id.
 Print Assumptions C11_routes.
@@ -73,3 +99,4 @@ Print Assumptions C11_external.
 Print Assumptions C11_first_match.
 Print Assumptions C11_want_signed.
 Print Assumptions C11_schema.
+Print Assumptions C11_unsigned_accepted_otherwise.
